@@ -670,6 +670,20 @@ class ProgGen:
                     items.append(node)
                 else:
                     items.insert(0, node)
+        if self.isa.get("late_consts") is not None and rng.random() < 0.15:
+            # a global *constant* that opens a scope (like a label does) right after a label with an equally named child:
+            #     zsa:  .zv = 7      zsb = 0x20  .zv = <earlier label>      <instr> .zv
+            # `.zv` below means zsb.zv, whose value follows a label that may still move after the first pass
+            untyped = [r for r in self.isa["rules"] if len(r["pat"]) == 2 and r["pat"][1][0] == "param" and r["pat"][1][2] is None]
+            earlier = [it[1] for it in items if it[0] == "label" and it[2] == 0]
+            if untyped and earlier:
+                r = rng.choice(untyped)
+                items.append(("label", "zsa", 0))
+                items.append(("const", "zv", 1, num(rng.randint(0, 9))))
+                items.append(("const", "zsb", 0, num(0x20)))
+                items.append(("const", "zv", 1, ("var", 0, [rng.choice(earlier)])))
+                for _ in range(rng.randint(1, 2)):
+                    items.append(("instr", [("t", r["pat"][0][1], "lit"), ("e", ("var", 1, ["zv"]))]))
         if self.isa.get("late_consts") is not None and rng.random() < 0.12:
             # a user constant that happens to be called `pc`: a bare `pc` operand still means the current address
             untyped = [r for r in self.isa["rules"] if len(r["pat"]) == 2 and r["pat"][1][0] == "param" and r["pat"][1][2] is None]
